@@ -12,6 +12,7 @@
 """
 import json, math, os, random
 from vf import core, gen
+from vf.num import gt, nmax as max, nmin as min
 
 PROPERTY = "C09"
 EPS = 2.0 ** -52
@@ -86,7 +87,7 @@ def run_case(case):
                 # twice or skipped is an error of order (mass ratio) dt^2 ~ 1e-7 or more.
                 K = 1e5 if corrected else 2048
                 # the correctors' rounding does not grow with n in unsafe mode (applied once at each end) but is not small: n + 20
-                if d > K * EPS * (n + (20 if corrected else 2)) * sc:
+                if gt(d, K * EPS * (n + (20 if corrected else 2)) * sc):
                     add('sync:safe-vs-unsafe-differ:%s%s' % (integ, ':then-short-exact-integrate' if short else ''), '%s opts %r n=%d: max|diff|=%.3e (scale %.3e, %.1f eps n scale)' % (integ, spec['opts'], n, d, sc, d / (EPS * n * sc)))
             else:
                 counters['eos_pairs'] += 1
@@ -115,7 +116,7 @@ def run_case(case):
                 # the inner scheme's error then no longer cancels between consecutive processors (observed ratios up to 13); a
                 # processor applied twice or skipped is an error of the order of the processor itself, 1e3-1e5 times larger
                 processed = str(spec['opts'].get('ri_eos.phi0', 'lf')).lower() in ('pmlf4', 'pmlf6', 'plf7_6_4')
-                if err_unsafe > (100 if processed else 4) * max(err_safe, err_safe2) + 1e4 * EPS * (n + 2) * sc:
+                if gt(err_unsafe, (100 if processed else 4) * max(err_safe, err_safe2) + 1e4 * EPS * (n + 2) * sc):
                     add('sync:unsafe-error-exceeds-scheme-truncation:eos', 'opts %r n=%d: |unsafe(2n)-ref|=%.3e but |safe(n)-ref|=%.3e |safe(2n)-ref|=%.3e' % (spec['opts'], n, err_unsafe, err_safe, err_safe2))
                 # exact relation: unsafe mode synchronised after every step performs the same operations as safe mode
                 sC = gen.build_sim(specB)
